@@ -371,7 +371,8 @@ theorem checkTx_decide (p : ChainParams) (t : Tx) (h : TxRange t) :
     simp [hv, ho, this, reject]
   have hvin : t.vin ≠ [] := fun hh => hv (by simp [hh])
   have hvout : t.vout ≠ [] := fun hh => ho (by simp [hh])
-  simp only [hv, ho, if_false, serTx_strip t h]
+  simp only [hv, ho, if_false, MerkleProofs.ctorValid_of_range t h, Bool.not_true, Bool.false_eq_true,
+    serTx_strip t h]
   by_cases hsz : (Spec.Wire.txLegacy t).length > maxBlockSize
   · have : ¬ Spec.BlockCheck.ValidTx p t := fun hh => by have := hh.2.2.1; omega
     simp [hsz, this, reject]
